@@ -3,7 +3,9 @@
 (*   side "client": a full handshake in which the harness is the server; its host   *)
 (*        key object signs the exchange hash with `sign` and names `blob`, the only *)
 (*        host-key algorithm offered is decl (+ cert suffix); accepted = the client  *)
-(*        passed _verify_key and sent NEWKEYS                                       *)
+(*        passed _verify_key and sent NEWKEYS in the exchange `exch` ("initial", or   *)
+(*        a re-exchange started by the client / the server after an honest initial   *)
+(*        exchange with the same key)                                               *)
 (*   side "server": a hand-driven client sent USERAUTH_REQUEST(publickey) naming    *)
 (*        decl, with a genuine signature made with `sign` over the correct session  *)
 (*        blob, the signature blob naming `blob`; accepted = USERAUTH_SUCCESS /      *)
@@ -21,13 +23,13 @@ En == {R.enabled[i] : i \in 1..Len(R.enabled)}
 
 TInit == tid \in 1..Len(Batch) /\ l = 1 /\ bad = {}
          /\ side = R.side /\ fam = Family(R.decl) /\ decl = R.decl /\ cert = R.cert /\ sign = R.sign /\ blob = R.blob
-         /\ enabled = En /\ probe = R.probe /\ phase = "start"
+         /\ enabled = En /\ probe = R.probe /\ exch = R.exch /\ phase = "start"
 
 Clause(ok, name) == IF ok THEN {} ELSE {name}
 
 TNext == /\ l = 1 /\ l' = 2 /\ tid' = tid
          /\ phase' = IF R.accepted THEN "accepted" ELSE "rejected"
-         /\ UNCHANGED <<side, fam, decl, cert, sign, blob, enabled, probe>>
+         /\ UNCHANGED <<side, fam, decl, cert, sign, blob, enabled, probe, exch>>
          /\ bad' = Clause(UsesDeclaredP(R.accepted, decl, sign, blob), "P_accepts_algorithm_other_than_declared")
                    \cup Clause(OnlyEnabledP(R.accepted, sign, blob, enabled), "P_accepts_disabled_algorithm")
                    \cup Clause(~R.accepted => ~MayAccept(decl, sign, blob, enabled) \/ ~SessionAlive(probe, enabled),
